@@ -49,7 +49,8 @@ package tensor
 //@   params dst src
 //@   requires [no_mask_yet] cap(asptr("tensor.Dense", dst).mask) == 0
 //@   ensures [mask_fresh] isnil(asptr("tensor.Dense", dst).mask) || fresh(asptr("tensor.Dense", dst).mask)
-//@   assigns whole(asptr("tensor.Dense", dst).Raw), asptr("tensor.Dense", dst).mask
+//@   ensures [raw] gh("rawcopy", asptr("tensor.Dense", dst)) == 1
+//@   assigns whole(asptr("tensor.Dense", dst).Raw), asptr("tensor.Dense", dst).mask, gh("rawcopy", asptr("tensor.Dense", dst))
 
 //@ func tensor.Dense.Clone
 //@   props C19
@@ -71,7 +72,7 @@ package tensor
 //@   params dt shape opts
 //@   ensures [fresh] fresh(result) && fresh(result.Raw)
 //@   ensures [storage] len(result.Raw) == prodInts(shape, len(shape)) * rsize(dt) && rkind(result.t) == rkind(dt)
-//@   ensures [clean] apIsZero(result.old) && isnil(result.old.shape) && isnil(result.old.strides) && isnil(result.transposeWith) && cap(result.mask) == 0
+//@   ensures [clean] apIsZero(result.old) && isnil(result.old.shape) && isnil(result.old.strides) && isnil(result.transposeWith) && isnil(result.mask)
 //@   assigns nothing
 
 //@ func tensor.Dense.SafeT
